@@ -570,7 +570,7 @@ func runHistory(h string, gating bool) (viol []string, sig string, interesting b
 func engineHistories(f *rep.Flags, res *rep.Result) {
 	maxLen := 4
 	if f.Thorough() {
-		maxLen = 5
+		maxLen = 6
 	}
 	hs := genHistories(maxLen)
 	var mu sync.Mutex
@@ -717,7 +717,7 @@ func main() {
 		res.Rule = "the stub's connection is cut after every byte offset of the handshake (connect, register, configure, synchronize) in either direction, plus unreachable runtime, refused registration, failing configuration; oracle: Start returns within the horizon, Wait returns, the close notification fires once iff a session was established, a restart on a fresh connection works and receives events; non-trivial = every case"
 		engineCuts(f, res)
 	case "histories":
-		res.Rule = "every sequence of length <= 4 (5 thorough) over {Start, Stop, Wait, peer drop, release held notification} containing a Start, replayed on a fresh stub, in two modes (notification delivered immediately / held at a gate until released), each step checked against a reference model of the session state"
+		res.Rule = "every sequence of length <= 4 (6 thorough) over {Start, Stop, Wait, peer drop, release held notification} containing a Start, replayed on a fresh stub, in two modes (notification delivered immediately / held at a gate until released), each step checked against a reference model of the session state"
 		engineHistories(f, res)
 	case "slowcfg":
 		res.Rule = "the session is lost (peer drop / runtime request timeout) while the plugin's Configure handler is still running; every combination of loss mode x stale handler result (nil / error) x time at which the stale handler returns (before the restart / while the restart waits for its own configuration / after the restart completed); oracle: Start #1 fails within the horizon, Start #2 returns neither success nor failure while its own session's Configure handler is held, then succeeds, the plugin receives events, and a third session is not handed the stale result either"
